@@ -155,6 +155,33 @@ def run(ctx):
         elif bt and (t[0], t[2], t[4]) != (bt[0], bt[2], bt[4]): why = 'after the stalled calls the rest did not decode as in one piece: status %s (expected %s)' % (t[0], bt[0])
         if why: bad.append(dict(history='%s, stall after %d input bytes: %s' % (lab, o, l[:2000]), why=why))
     stats['stall_histories'] = len(sl)
+    # ---- positions never move beyond the buffers given: the real encoders and decoders on the AddressSanitizer build with
+    # exact-size heap copies of every input and output slice (1-byte and random slices), so that a coder writing one byte
+    # past avail_out, or reporting more than it was given, is seen; all Check sizes and all padding lengths (data sizes 0..40)
+    edrv = compile_driver('san', 'drv_enc.c', 'drv_enc'); sdrv = compile_driver('san', 'drv_dec.c', 'drv_dec')
+    el = []
+    for n_ in range(0, 41 if ctx.quick() else 200):
+        dd_ = bytes(rng.getrandbits(8) for _ in range(n_))
+        for chk in (0, 1, 4, 10):
+            el.append('enc 0 %d 2 0 - %s' % (0 | (chk << 8), dd_.hex() or '-'))
+            el.append('enc 4 %d %d %d %s %s' % (chk << 8, rng.choice([2, 3]), rng.randrange(1 << 20), rng.choice(['lzma2:dict=4KiB', 'delta:dist=3+lzma2:dict=4KiB', 'x86+lzma2:dict=4KiB']), dd_.hex() or '-'))
+        el.append('enc 1 %d 2 0 - %s' % (1 | (4 << 8) | (1 << 12) | (1 << 20), dd_.hex() or '-'))
+        el.append('enc 2 0 2 0 - %s' % (dd_.hex() or '-'))
+    eo, ef = run_lines(edrv, el)
+    for x in ef: bad.append(dict(history=(x[0] or '')[:3000], why='encoder driven with 1-byte / random output slices: crash or sanitizer report (a position moved beyond its buffer?) rc %s' % x[2], stderr=x[1][-2000:]))
+    dl = []
+    for l_, o_ in zip(el, eo):
+        if o_ is None: continue
+        t_ = o_.split(); stats['calls'] += 1
+        if t_[0] != '1': bad.append(dict(history=l_[:3000], why='encoder driven with small output slices returned %s' % t_[0])); continue
+        k_ = {'0': 0, '4': 0, '1': 0, '2': 3}[l_.split()[1]]
+        for m_ in (2, 1): dl.append('dec %d 0 %d 0 0 %s' % (k_, m_, t_[1]))
+    do_, df_ = run_lines(sdrv, dl)
+    for x in df_: bad.append(dict(history=(x[0] or '')[:3000], why='decoder driven with 1-byte slices: crash or sanitizer report rc %s' % x[2], stderr=x[1][-2000:]))
+    for l_, o_ in zip(dl, do_):
+        if o_ is None: continue
+        stats['calls'] += 1
+        if o_.split()[0] != '1': bad.append(dict(history=l_[:3000], why='output of an encoder driven with 1-byte output slices does not decode (status %s)' % o_.split()[0]))
     ctx.cov['evaluations'] = stats['calls']
     ctx.cov['distinct_nontrivial'] = len(distinct)
     ctx.cov['rule'] = ('random call histories on one handle (12 coder kinds, re-init without end, lzma_end, actions 0..6, flush started then changed, NULL buffers, reserved fields, zero-length calls) + corpus; '
